@@ -1,84 +1,127 @@
 (* Properties/C21.v — Hash-scheme garbage collection never drops live nodes.
-   Property theorems only, about the model Storage/HashDB.v of
-   /repo/triedb/hashdb/database.go; lemmas are in Storage/HashDBProofs.v.
+   Property theorems only, about the model Storage/HashDB.v of /repo/triedb/hashdb/database.go;
+   lemmas are in Storage/HashDBProofs.v, Storage/HashDBInv.v, Storage/HashDBOps.v.
 
-   FULL STATEMENTS AIMED AT (DESIGN.md section 6, C21), for every history [ops] of
-   Update / Reference(root) / Dereference(root) / Cap / Commit whose Updates insert children
-   before parents and list every account-leaf storage root, and whose Dereferences match
-   earlier References:
-     run ops empty_db = Ok st  /\  exists fl stamp u, Inv kids ext nsize fl stamp u st
-   (no nil dereference, no fuel exhaustion, and the invariant [Inv] = flush list well formed
-   over exactly the cached nodes in insertion order + reference counts exact for nodes not
-   on disk + children readable + sizes exact).
-   PROVED BELOW: (1) every clause of the property follows from [Inv] (readability of live
-   nodes, size accounting); (2) the flush-list part of [Inv] is preserved by the removal
-   switch shared by dereference and cleaner.Put, and by cleaner.Put as a whole, for every
-   well-formed list and every position.  MISSING: preservation of the remaining clauses of
-   [Inv] by insert/reference/dereference/Cap/Commit (the recursion of dereference and commit)
-   — hence the names …_partial; those clauses are evaluated as a direct oracle on the real
-   implementation after every operation of every generated history.
-   REFUTED: "after all references are removed nothing stays cached" — see
-   C21_deref_collects_refuted (replayed on the real code). *)
-From GV Require Import Lib.Tactics Storage.HashDB Storage.HashDBProofs.
+   Histories: lists of Update / Reference / Dereference / Cap / Commit started on the empty
+   database, satisfying [good] — exactly what the callers of hashdb guarantee:
+     Update nodes refs : every inserted hash is non-zero, its trie children and embedded storage
+                         roots are readable or inserted earlier in the same update ([ins_ok], the
+                         order ForEachWithOrder / storage-tries-first produces), and refs are
+                         exactly the (storage root, leaf parent) pairs of the inserted nodes;
+     Reference c p     : p = 0 (root reference from the meta root) and c readable;
+     Dereference r     : r = 0 or r currently referenced;  Cap, Commit: unrestricted.
+   [u_of ops r] = number of live root references to r.  Hypothesis of every theorem: the node
+   graph is acyclic, given as a rank ([rank_dec]; hash-linking under collision freedom).
+   The invariant [Inv] weakens two clauses of the plan, because they are false of the code:
+   reference counts are exact only for cached nodes that are NOT on disk (re-inserted disk nodes
+   are under- or over-counted, the corner case the Go comment mentions), and "after all
+   references are removed nothing stays cached" holds only off disk — see
+   C21_deref_collects (true form) and C21_deref_collects_refuted (witness, replayed on /repo). *)
+From GV Require Import Lib.Tactics Storage.HashDB Storage.HashDBProofs Storage.HashDBInv Storage.HashDBOps.
+From Coq Require Import Sorted.
 Local Open Scope N_scope.
 
-(* THE property, given the invariant: every node reachable (trie children and
-   account -> storage root edges) from a root that is still referenced is cached or on disk *)
-Theorem C21_live_readable_partial :
-  forall (kids ext : N -> list N) (nsize : N -> N) st fl stamp u r x,
-    Inv kids ext nsize fl stamp u st ->
-    (0 < u r)%nat -> reach kids ext r x ->
-    cached st x \/ ondisk st x.
-Proof. exact inv_live_readable. Qed.
-Print Assumptions C21_live_readable_partial.
+(* every guarded history runs without nil dereference and without fuel exhaustion, and ends in
+   a state satisfying the invariant: flush list doubly linked over exactly the cached nodes in
+   insertion order, counts exact off disk, tracked children on disk or earlier in the flush
+   list, disk closed under child / storage-root edges, sizes exact *)
+Theorem C21_inv_all_histories :
+  forall (kids ext : N -> list N) (nsize : N -> N) (cns ideal : Z) (rank : N -> nat),
+    (forall h c, In c (kids h ++ ext h) -> (rank c < rank h)%nat) ->
+    forall ops, good kids ext nsize cns ideal u0 empty_db ops ->
+    exists st fl stamp nxt, run kids nsize cns ideal ops empty_db = Ok st /\
+      Inv kids ext nsize fl stamp (u_of ops) nxt st.
+Proof. exact all_histories. Qed.
+Print Assumptions C21_inv_all_histories.
 
-(* everything below a node that is on disk is on disk (what Commit/Cap leave behind is closed) *)
-Theorem C21_disk_closed_partial :
-  forall (kids ext : N -> list N) (nsize : N -> N) st fl stamp u r x,
-    Inv kids ext nsize fl stamp u st -> ondisk st r -> reach kids ext r x -> ondisk st x.
-Proof. exact ondisk_reach. Qed.
-Print Assumptions C21_disk_closed_partial.
+(* THE property: every node reachable (trie children and account -> storage root edges) from a
+   root that is still referenced is cached or on disk *)
+Theorem C21_live_readable :
+  forall (kids ext : N -> list N) (nsize : N -> N) (cns ideal : Z) (rank : N -> nat),
+    (forall h c, In c (kids h ++ ext h) -> (rank c < rank h)%nat) ->
+    forall ops st r x, good kids ext nsize cns ideal u0 empty_db ops ->
+    run kids nsize cns ideal ops empty_db = Ok st ->
+    (0 < u_of ops r)%nat -> reach kids ext r x -> cached st x \/ ondisk st x.
+Proof. exact hist_live. Qed.
+Print Assumptions C21_live_readable.
+
+Theorem C21_disk_closed :
+  forall (kids ext : N -> list N) (nsize : N -> N) (cns ideal : Z) (rank : N -> nat),
+    (forall h c, In c (kids h ++ ext h) -> (rank c < rank h)%nat) ->
+    forall ops st r x, good kids ext nsize cns ideal u0 empty_db ops ->
+    run kids nsize cns ideal ops empty_db = Ok st ->
+    ondisk st r -> reach kids ext r x -> ondisk st x.
+Proof. exact hist_disk_closed. Qed.
+Print Assumptions C21_disk_closed.
+
+(* after Commit root everything reachable from root is on disk *)
+Theorem C21_commit_persists :
+  forall (kids ext : N -> list N) (nsize : N -> N) (cns ideal : Z) (rank : N -> nat),
+    (forall h c, In c (kids h ++ ext h) -> (rank c < rank h)%nat) ->
+    forall ops st root st' x, good kids ext nsize cns ideal u0 empty_db ops ->
+    run kids nsize cns ideal ops empty_db = Ok st ->
+    known st root -> Commit kids nsize ideal st root = Ok st' -> reach kids ext root x -> ondisk st' x.
+Proof. exact hist_commit_persists. Qed.
+Print Assumptions C21_commit_persists.
+
+(* the flush list is a doubly linked list over exactly the cached nodes, in insertion order *)
+Theorem C21_flushlist_wf :
+  forall (kids ext : N -> list N) (nsize : N -> N) (cns ideal : Z) (rank : N -> nat),
+    (forall h c, In c (kids h ++ ext h) -> (rank c < rank h)%nat) ->
+    forall ops st, good kids ext nsize cns ideal u0 empty_db ops ->
+    run kids nsize cns ideal ops empty_db = Ok st ->
+    exists fl stamp, linked fl st /\ (forall h, cached st h <-> In h fl) /\ StronglySorted (slt stamp) fl.
+Proof. exact hist_flushlist. Qed.
+Print Assumptions C21_flushlist_wf.
+
+(* parents = references from cached nodes (children with multiplicity + external set) + live
+   root references — for every cached node that is not on disk *)
+Theorem C21_refcount_exact :
+  forall (kids ext : N -> list N) (nsize : N -> N) (cns ideal : Z) (rank : N -> nat),
+    (forall h c, In c (kids h ++ ext h) -> (rank c < rank h)%nat) ->
+    forall ops st, good kids ext nsize cns ideal u0 empty_db ops ->
+    run kids nsize cns ideal ops empty_db = Ok st ->
+    exists fl, (forall h, cached st h <-> In h fl) /\ NoDup fl /\
+      forall x, cached st x -> ~ ondisk st x -> gpar st x = (occ kids st fl x + u_of ops x)%nat.
+Proof. exact hist_refcount. Qed.
+Print Assumptions C21_refcount_exact.
 
 (* reported memory usage = sum over the cached nodes of hash + blob + metadata + external set *)
-Theorem C21_size_exact_partial :
-  forall (kids ext : N -> list N) (nsize : N -> N) st fl stamp u cns,
-    Inv kids ext nsize fl stamp u st ->
-    Size cns st = sumZ (fun h => node_cost nsize h + cns +
-                    match getd st h with Some e => zlen (e_ext e) * hashLen | None => 0 end)%Z fl.
-Proof. exact inv_size_exact. Qed.
-Print Assumptions C21_size_exact_partial.
+Theorem C21_size_exact :
+  forall (kids ext : N -> list N) (nsize : N -> N) (cns ideal : Z) (rank : N -> nat),
+    (forall h c, In c (kids h ++ ext h) -> (rank c < rank h)%nat) ->
+    forall ops st, good kids ext nsize cns ideal u0 empty_db ops ->
+    run kids nsize cns ideal ops empty_db = Ok st ->
+    exists fl, (forall h, cached st h <-> In h fl) /\ NoDup fl /\
+      Size cns st = sumZ (fun h => cost nsize h + cns + xcost st h)%Z fl.
+Proof. exact hist_size. Qed.
+Print Assumptions C21_size_exact.
 
-(* flush list: the removal switch of dereference / cleaner.Put never hits a nil pointer on a
-   well-formed list and leaves a well-formed list without the node, touching no reference
-   count, external set, size or disk content — for every list and every position *)
-Theorem C21_flushlist_unlink_partial :
-  forall fl st h node e,
-    linked fl st -> In h fl -> getd st h = Some e ->
-    e_prev node = e_prev e -> e_next node = e_next e ->
-    exists st', unlink st h node = Ok st' /\ linked (rm h fl) st' /\ same_logic st st' /\
-                getd st' h = getd st h.
-Proof. exact unlink_linked. Qed.
-Print Assumptions C21_flushlist_unlink_partial.
+(* collection, in the form that is true: a cached node that is not on disk, has no root
+   reference and no cached referrer has count 0 (it was never referenced: a count that reaches 0
+   deletes the node); so no node off disk is kept alive by a stale count *)
+Theorem C21_deref_collects :
+  forall (kids ext : N -> list N) (nsize : N -> N) (cns ideal : Z) (rank : N -> nat),
+    (forall h c, In c (kids h ++ ext h) -> (rank c < rank h)%nat) ->
+    forall ops st x, good kids ext nsize cns ideal u0 empty_db ops ->
+    run kids nsize cns ideal ops empty_db = Ok st ->
+    cached st x -> ~ ondisk st x -> u_of ops x = 0%nat ->
+    (forall p, cached st p -> ~ In x (tracked kids st p)) -> gpar st x = 0%nat.
+Proof. exact hist_collects. Qed.
+Print Assumptions C21_deref_collects.
 
-(* cleaner.Put (the uncaching step of Commit) keeps the list well formed over exactly the
-   cached nodes, never touches the disk set nor any other node's count/external set *)
-Theorem C21_flushlist_uncache_partial :
-  forall nsize fl st h,
-    linked fl st -> (forall x, getd st x <> None <-> In x fl) ->
-    exists st', uncache nsize st h = Ok st' /\ linked (rm h fl) st' /\
-                (forall x, getd st' x <> None <-> In x (rm h fl)) /\ disk st' = disk st /\
-                (forall x, x <> h -> lget st' x = lget st x).
-Proof. exact uncache_linked. Qed.
-Print Assumptions C21_flushlist_uncache_partial.
-
-(* the clause "after all references to a root are removed no node reachable only from removed
-   roots remains cached" is FALSE of the faithful model: after this history (all Dereferences
-   matched, every Update children-first) node 1 is cached with parents = 1, alone in the
-   flush list, with no cached referrer and no referenced root; it is on disk *)
+(* ... and FALSE on disk: after this guarded history (all Dereferences matched, every Update
+   children-first) node 1 is cached with parents = 1, alone in the flush list, with no cached
+   referrer and no referenced root; it is on disk.  Open finding C21-leak-after-deref. *)
 Theorem C21_deref_collects_refuted :
   exists st, run leak_kids leak_size 104%Z 102400%Z leak_ops empty_db = Ok st /\ leak_check st = true.
 Proof. exact leak_witness. Qed.
 Print Assumptions C21_deref_collects_refuted.
 
-Example C21_nonvacuous : linked [1; 2; 3] demo_state /\ In 2 [1; 2; 3].
-Proof. split; [exact demo_linked | cbn; auto]. Qed.
+(* the hypotheses are met: a guarded history (shared child, external reference, root reference)
+   over an acyclic graph *)
+Example C21_nonvacuous :
+  (forall h c, In c (demo_kids h ++ demo_ext h) -> (N.to_nat c < N.to_nat h)%nat) /\
+  good demo_kids demo_ext leak_size 104%Z 102400%Z u0 empty_db demo_ops /\
+  linked [1; 2; 3] demo_state.
+Proof. split; [exact demo_rank|]. split; [exact demo_good | exact demo_linked]. Qed.
